@@ -135,6 +135,164 @@ theorem replaceAll_single (a key val b : Bytes) (hk : key ≠ [])
       | some _ => rw [hf] at hlate; cases hlate
     rw [replaceGo_noOcc _ _ b 0 this]
 
+-- the scan over all variants (patched `determine_filename_replacement`) ---------------------------------------------------
+
+theorem startsHere_some {vmap : List VEntry} {s : Bytes} {v : VEntry} (h : startsHere vmap s = some v) :
+    v ∈ vmap ∧ v.key ≠ [] ∧ v.key.isPrefixOf s = true := by
+  unfold startsHere at h
+  have hm := List.mem_of_find?_eq_some h
+  have hp := List.find?_some h
+  simp only [Bool.and_eq_true, Bool.not_eq_true'] at hp
+  refine ⟨hm, ?_, hp.2⟩
+  intro h0; rw [h0] at hp; simp at hp
+
+theorem startsHere_none {vmap : List VEntry} {s : Bytes} (h : startsHere vmap s = none) :
+    ∀ v ∈ vmap, v.key ≠ [] → v.key.isPrefixOf s = false := by
+  intro v hv hk
+  unfold startsHere at h
+  rw [List.find?_eq_none] at h
+  have := h v hv
+  have e : v.key.isEmpty = false := by cases hkk : v.key with
+    | nil => exact absurd hkk hk
+    | cons _ _ => rfl
+  rw [e] at this
+  cases hp : v.key.isPrefixOf s with
+  | false => rfl
+  | true => rw [hp] at this; simp at this
+
+theorem rewriteGo_mem (vmap : List VEntry) : ∀ (s : Bytes) (k : Nat) (x : UInt8),
+    x ∈ rewriteGo vmap s k → x ∈ s ∨ ∃ v ∈ vmap, x ∈ replOf v := by
+  intro s
+  induction s with
+  | nil => intro k x h; cases k <;> simp [rewriteGo] at h
+  | cons c cs ih =>
+    intro k x h
+    cases k with
+    | succ k =>
+      simp only [rewriteGo] at h
+      rcases ih k x h with h | h
+      · exact Or.inl (List.mem_cons_of_mem _ h)
+      · exact Or.inr h
+    | zero =>
+      simp only [rewriteGo] at h
+      split at h
+      · rename_i v hv
+        rcases List.mem_append.1 h with h | h
+        · exact Or.inr ⟨v, (startsHere_some hv).1, h⟩
+        · rcases ih _ x h with h | h
+          · exact Or.inl (List.mem_cons_of_mem _ h)
+          · exact Or.inr h
+      · rcases List.mem_cons.1 h with h | h
+        · exact Or.inl (h ▸ List.mem_cons_self)
+        · rcases ih 0 x h with h | h
+          · exact Or.inl (List.mem_cons_of_mem _ h)
+          · exact Or.inr h
+
+/-- when some variant occurs, the replacement text of some variant shows up in the result -/
+theorem rewriteGo_has (vmap : List VEntry) (v : VEntry) (hv : v ∈ vmap) (hk : v.key ≠ []) :
+    ∀ (s : Bytes) (i : Nat), (find.go v.key s i).isSome = true →
+      ∃ w ∈ vmap, ∀ x ∈ replOf w, x ∈ rewriteGo vmap s 0 := by
+  intro s
+  induction s with
+  | nil =>
+    intro i h
+    simp only [find.go] at h
+    cases hkk : v.key with
+    | nil => exact absurd hkk hk
+    | cons a as => rw [hkk] at h; simp at h
+  | cons c cs ih =>
+    intro i h
+    simp only [rewriteGo]
+    cases hs : startsHere vmap (c :: cs) with
+    | some w =>
+      exact ⟨w, (startsHere_some hs).1, fun x hx => List.mem_append_left _ hx⟩
+    | none =>
+      simp only [find.go] at h
+      have hnp := startsHere_none hs v hv hk
+      rw [if_neg (by simp [hnp])] at h
+      obtain ⟨w, hw, hx⟩ := ih (i + 1) h
+      exact ⟨w, hw, fun x hxx => List.mem_cons_of_mem _ (hx x hxx)⟩
+
+theorem rewriteGo_skip (vmap : List VEntry) : ∀ (a s : Bytes),
+    rewriteGo vmap (a ++ s) a.length = rewriteGo vmap s 0 := by
+  intro a
+  induction a with
+  | nil => intro s; rfl
+  | cons x a ih => intro s; simp only [List.cons_append, List.length_cons, rewriteGo]; exact ih s
+
+/-- one step of the scan at an occurrence -/
+theorem rewriteGo_occ (vmap : List VEntry) (v : VEntry) (c : UInt8) (cs : Bytes)
+    (h : startsHere vmap (c :: cs) = some v) :
+    ∃ rest, c :: cs = v.key ++ rest ∧ rewriteGo vmap (c :: cs) 0 = replOf v ++ rewriteGo vmap rest 0 := by
+  obtain ⟨_, hk, hp⟩ := startsHere_some h
+  obtain ⟨rest, hrest⟩ := List.isPrefixOf_iff_prefix.1 hp
+  refine ⟨rest, hrest.symm, ?_⟩
+  simp only [rewriteGo, h]
+  cases hkk : v.key with
+  | nil => exact absurd hkk hk
+  | cons k0 ks =>
+    rw [hkk] at hrest
+    have : cs = ks ++ rest := by
+      have := hrest; simp only [List.cons_append, List.cons.injEq] at this; exact this.2.symm
+    rw [this]
+    simp only [List.length_cons, Nat.add_sub_cancel]
+    rw [rewriteGo_skip]
+
+/-- what the scan guarantees: the input is cut into occurrences of variants, each replaced by its text, and
+    single bytes that are copied — and a byte is copied only where no variant starts -/
+inductive Rewritten (vmap : List VEntry) : Bytes → Bytes → Prop
+  | nil : Rewritten vmap [] []
+  | occ (v : VEntry) (rest out : Bytes) : v ∈ vmap → v.key ≠ [] → Rewritten vmap rest out →
+      Rewritten vmap (v.key ++ rest) (replOf v ++ out)
+  | copy (c : UInt8) (rest out : Bytes) : (∀ v ∈ vmap, v.key ≠ [] → v.key.isPrefixOf (c :: rest) = false) →
+      Rewritten vmap rest out → Rewritten vmap (c :: rest) (c :: out)
+
+theorem rewriteAll_spec (vmap : List VEntry) : ∀ (n : Nat) (s : Bytes), s.length ≤ n →
+    Rewritten vmap s (rewriteGo vmap s 0) := by
+  intro n
+  induction n with
+  | zero =>
+    intro s hs
+    have : s = [] := List.eq_nil_of_length_eq_zero (Nat.le_zero.1 hs)
+    subst this; exact Rewritten.nil
+  | succ n ih =>
+    intro s hs
+    cases s with
+    | nil => exact Rewritten.nil
+    | cons c cs =>
+      cases h : startsHere vmap (c :: cs) with
+      | some v =>
+        obtain ⟨rest, hcut, hrw⟩ := rewriteGo_occ vmap v c cs h
+        obtain ⟨hv, hk, _⟩ := startsHere_some h
+        rw [hrw, hcut]
+        refine Rewritten.occ v rest _ hv hk (ih rest ?_)
+        have hl : (c :: cs).length = v.key.length + rest.length := by rw [hcut]; simp
+        have hkl : 0 < v.key.length := List.length_pos_iff.2 hk
+        simp only [List.length_cons] at hl hs
+        omega
+      | none =>
+        simp only [rewriteGo, h]
+        exact Rewritten.copy c cs _ (startsHere_none h) (ih cs (by simpa using hs))
+
+/-- no variant starts inside `a`: `a` is copied -/
+theorem rewriteGo_prefix (vmap : List VEntry) : ∀ (a rest : Bytes),
+    (∀ k, k < a.length → startsHere vmap ((a ++ rest).drop k) = none) →
+    rewriteGo vmap (a ++ rest) 0 = a ++ rewriteGo vmap rest 0 := by
+  intro a
+  induction a with
+  | nil => intro rest _; rfl
+  | cons c a ih =>
+    intro rest h
+    have h0 : startsHere vmap (c :: (a ++ rest)) = none := by simpa using h 0 (by simp)
+    simp only [List.cons_append, rewriteGo, h0]
+    rw [ih rest (fun k hk => by simpa using h (k + 1) (by simpa using hk))]
+
+theorem rewriteGo_noOcc (vmap : List VEntry) : ∀ (s : Bytes),
+    (∀ k, k < s.length → startsHere vmap (s.drop k) = none) → rewriteGo vmap s 0 = s := by
+  intro s h
+  have := rewriteGo_prefix vmap s [] (by simpa using h)
+  simpa [rewriteGo] using this
+
 -- with_file_name -------------------------------------------------------------------------------------------------
 
 theorem splitOn_go_noSep (d : UInt8) : ∀ (s cur : Bytes), d ∉ s → splitOn.go d s cur = [cur.reverse ++ s] := by
@@ -475,6 +633,53 @@ theorem filterRoots_distinct {cn : Path → Path} {roots : List Path} {b : Bool}
     simp only [Bool.false_eq_true, if_false]
     exact List.Pairwise.sublist List.filter_sublist h
 
+/-- an accepted multi-root scan is the de-duplicated output of the loop, and (with the cross-root check) no two of
+    its renames with different sources share a destination -/
+theorem planMulti_ok {T : Tables} {o : Opts} {vmap : List VEntry} {ess : List (List Entry)} {rs : List Ren}
+    (h : planMulti T o vmap ess = .ok rs) :
+    ∃ raw, planLoop T o vmap ess = .ok raw ∧ rs = dedupRens raw := by
+  unfold planMulti at h
+  split at h
+  · cases h
+  · rename_i raw hraw
+    simp only at h
+    split at h
+    · cases h
+    · cases h; exact ⟨raw, hraw, rfl⟩
+
+theorem planMulti_checked {T : Tables} {o : Opts} {vmap : List VEntry} {ess : List (List Entry)} {rs : List Ren}
+    (hc : T.crossRootCheck = true) (h : planMulti T o vmap ess = .ok rs) : sharedDest rs = false := by
+  unfold planMulti at h
+  split at h
+  · cases h
+  · simp only at h
+    split at h
+    · cases h
+    · rename_i hn
+      cases h
+      rw [hc] at hn
+      simpa using hn
+
+theorem sharedDest_false {rs : List Ren} (h : sharedDest rs = false) :
+    ∀ r ∈ rs, ∀ r' ∈ rs, r.newPath ≠ [] → r.newPath = r'.newPath → r.path = r'.path := by
+  intro r hr r' hr' hne heq
+  unfold sharedDest at h
+  rw [List.any_eq_false] at h
+  have h1 := h r hr
+  have hemp : r.newPath.isEmpty = false := by
+    cases hnp : r.newPath with
+    | nil => exact absurd hnp hne
+    | cons _ _ => rfl
+  rw [hemp] at h1
+  simp only [Bool.not_false, Bool.true_and, Bool.not_eq_true] at h1
+  rw [List.any_eq_false] at h1
+  have h2 := h1 r' hr'
+  cases hp : (r'.path == r.path) with
+  | true => exact (by simpa using hp : r'.path = r.path).symm
+  | false =>
+    rw [hp] at h2
+    simp [heq] at h2
+
 /-- the plan of `renamify rename … <roots…>`: no node twice; every rename belongs to the accepted plan of a root
     and (without `--rename-root`) is not a root itself -/
 theorem planRenames_mem (T : Tables) (o : Opts) (vmap : List VEntry) (t : Tree) (roots : List Path) (b : Bool)
@@ -482,20 +687,19 @@ theorem planRenames_mem (T : Tables) (o : Opts) (vmap : List VEntry) (t : Tree) 
     rs.Pairwise (fun a b => a.path ≠ b.path) ∧
     ∀ r ∈ rs, (∃ root ∈ roots, ∃ rs0, planWithSearch T o vmap (entriesOf t root) = .ok rs0 ∧ r ∈ rs0) ∧
       (b = false → ∀ root ∈ roots, r.path ≠ root) := by
-  unfold planRenames planMulti at h
+  unfold planRenames at h
   split at h
   · cases h
   · rename_i rs1 h1
-    split at h1
-    · cases h1
-    · rename_i rs2 h2
-      cases h1; cases h
-      refine ⟨filterRoots_distinct (dedupRens_distinct rs2), ?_⟩
-      intro r hr
-      obtain ⟨hr1, hr2⟩ := mem_filterRoots hr
-      obtain ⟨es, hes, rs0, h0, hr0⟩ := planLoop_mem T o vmap _ rs2 h2 r ((dedupRens_sublist rs2).subset hr1)
-      obtain ⟨root, hroot, rfl⟩ := List.mem_map.1 hes
-      exact ⟨⟨root, hroot, rs0, h0, hr0⟩, hr2⟩
+    obtain ⟨rs2, h2, hd⟩ := planMulti_ok h1
+    cases h
+    subst hd
+    refine ⟨filterRoots_distinct (dedupRens_distinct rs2), ?_⟩
+    intro r hr
+    obtain ⟨hr1, hr2⟩ := mem_filterRoots hr
+    obtain ⟨es, hes, rs0, h0, hr0⟩ := planLoop_mem T o vmap _ rs2 h2 r ((dedupRens_sublist rs2).subset hr1)
+    obtain ⟨root, hroot, rfl⟩ := List.mem_map.1 hes
+    exact ⟨⟨root, hroot, rs0, h0, hr0⟩, hr2⟩
 
 /-- membership in an accepted per-root plan -/
 theorem mem_accepted {T : Tables} {o : Opts} {vmap : List VEntry} {es : List Entry} {rs : List Ren}
